@@ -679,3 +679,53 @@ def root_writeback(ctx, rule, fn_ids=None):
         ctx.ob(rule, short, n >= minimum, "%d root write-back(s) (BTree::root_page() -> set_root_page)" % n if n >= minimum else
                "%s inserts into a tree but persists its new root %d time(s) (expected >= %d): after a root split the file header keeps the "
                "old root and the entries in the new sibling become unreachable" % (short, n, minimum), f.loc())
+
+
+def modified_set_complete(ctx, rule):
+    """UPDATE decides which unique columns / indexes / FK references to re-check from a HashSet<usize> of assigned column
+    positions.  That set has to be collected from the complete SET list: a collection that is itself filled conditionally inside a
+    loop over another collection (the precomputed vs. per-row "deferred" partition) is a subset, and columns assigned through the
+    other part are treated as unmodified — no uniqueness check, no index maintenance, no ON UPDATE action."""
+    m = ctx.m
+    f = m.fn(ENTRIES["update"])
+    loops = f.loops()
+    items = list(loops.items()) if isinstance(loops, dict) else list(loops)
+    # locals that are filled by push inside a loop
+    pushed = {}
+    for c in f.calls:
+        if c.name.rsplit("::", 1)[-1] == "push" and c.args and any(c.bb in body for _, body in items):
+            r = _buf_root(f, c.args[0])
+            if r is not None and not r[1]:
+                pushed.setdefault(r[0], []).append(c)
+    n = 0
+    for c in f.calls:
+        if not (c.name.endswith("Iterator>::collect") or c.name.rsplit("::", 1)[-1].startswith("collect")):
+            continue
+        if "HashSet<usize" not in c.full and not (c.dest is not None and "HashSet<usize" in f.locals[c.dest[0]]):
+            continue
+        # walk the iterator chain back to the collection it iterates
+        src = c
+        root = None
+        hops = 0
+        while src is not None and hops < 8:
+            hops += 1
+            if not src.args:
+                break
+            r = _buf_root(f, src.args[0])
+            pl = operand_place(src.args[0])
+            from paths import source_call
+            nxt = source_call(f, pl[0]) if pl is not None and not pl[1] else None
+            if nxt is None or not any(nxt.name.rsplit("::", 1)[-1].startswith(x) for x in ("map", "iter", "into_iter", "filter", "copied", "cloned", "enumerate", "deref")):
+                root = r
+                break
+            src = nxt
+            root = _buf_root(f, nxt.args[0]) if nxt.args else None
+        if root is None:
+            continue
+        n += 1
+        subset = root[0] in pushed
+        ctx.ob(rule, "execute_update#%d" % (n - 1), not subset, "the modified-column set is collected from a complete collection" if not subset else
+               "the set of modified columns is collected from a collection that is only a partition of the SET list (it is filled by push "
+               "inside a loop, L%d): columns assigned through the other partition are treated as unmodified — uniqueness, index "
+               "maintenance and ON UPDATE actions are skipped for them" % pushed[root[0]][0].line, c.loc())
+    ctx.floor(rule + ".modified_sets", n, 1)
